@@ -32,6 +32,14 @@ import (
 //   - the per-node device state (deviceUsed, deviceFree, allocateSet, vfAllocations) of the fresh
 //     caches must equal the live one, must not consider a taken share free, and must not depend on
 //     the replay order; the annotation must read back exactly.
+//   - VFs: bus ids come from a small pool per (node, minor) so that a VF released by a deleted pod is
+//     handed out again later; the generator never lets two pods that are present at the same time hold
+//     the same VF (what allocateVF guarantees) and the harness CHECKS that hypothesis of the Lean
+//     theorems (Proofs/C19ExtDevVF.lean: VWF) on every history (C19:dev-vf-hypothesis).
+//   - delete events go through the registered handler value (cache.ResourceEventHandlerFuncs.OnDelete
+//     -> nodeDeviceCache.onPodDelete, the type switch), ~40 % wrapped in a
+//     cache.DeletedFinalStateUnknown passed by value; rarely a degenerate tombstone (Obj nil / of a
+//     wrong type) is delivered in addition and must be ignored.
 
 var c19Types = [3]schedulingv1alpha1.DeviceType{schedulingv1alpha1.GPU, schedulingv1alpha1.RDMA, schedulingv1alpha1.FPGA}
 var c19Res = [3][3]corev1.ResourceName{
@@ -69,6 +77,43 @@ type c19Inventory struct {
 	nNodes int
 	counts [2][3]int            // node, ty -> number of devices (minors 0..count-1)
 	totals map[[3]int][3]int64 // (node, ty, minor) -> totals of dims 0..2
+	busIdx map[string]int      // bus id -> index in the sorted list of the case's bus ids
+}
+
+// c19Handler mirrors the handler value built by registerPodEventHandler (eventhandler_pod.go): the
+// informer calls its OnAdd/OnUpdate/OnDelete methods.
+func c19Handler(c *nodeDeviceCache) cache.ResourceEventHandlerFuncs {
+	return cache.ResourceEventHandlerFuncs{
+		AddFunc:    c.onPodAdd,
+		UpdateFunc: c.onPodUpdate,
+		DeleteFunc: c.onPodDelete,
+	}
+}
+
+// c19DeleteObj chooses the shape of a pod delete event: the pod itself or (about 40 %) a
+// cache.DeletedFinalStateUnknown by value holding it.
+func c19DeleteObj(h *vHarness, r *vRand, pod *corev1.Pod) (obj interface{}, tombstone bool) {
+	if r.Chance(2, 5) {
+		h.Tag("del:tombstone")
+		return cache.DeletedFinalStateUnknown{Key: pod.Namespace + "/" + pod.Name, Obj: pod}, true
+	}
+	h.Tag("del:plain")
+	return pod, false
+}
+
+// c19BadTombstone builds a degenerate tombstone about pod: Obj nil or of a wrong type.
+func c19BadTombstone(r *vRand, pod *corev1.Pod) interface{} {
+	key := pod.Namespace + "/" + pod.Name
+	switch r.Intn(4) {
+	case 0:
+		return cache.DeletedFinalStateUnknown{Key: key, Obj: nil}
+	case 1:
+		return cache.DeletedFinalStateUnknown{Key: key, Obj: *pod.DeepCopy()} // a Pod by value, not *Pod
+	case 2:
+		return cache.DeletedFinalStateUnknown{Key: key, Obj: &corev1.Node{ObjectMeta: metav1.ObjectMeta{Name: pod.Spec.NodeName, Annotations: pod.Annotations}}}
+	default:
+		return cache.DeletedFinalStateUnknown{Key: key, Obj: key}
+	}
 }
 
 func c19Device(inv *c19Inventory, node int) *schedulingv1alpha1.Device {
@@ -142,16 +187,75 @@ func (p *c19PodDef) allocs() apiext.DeviceAllocations {
 	return out
 }
 
-func (p *c19PodDef) opLine() string {
+// opLine: `dev pod <p> <node> <n> (<ty> <minor> <nres> (<dim> <amt>)^nres)^n (<nvf> <bus>^nvf)^n`; the
+// tail (VirtualFunctions of the n allocations, bus ids as indices into the sorted bus-id list of the
+// case, in list order with duplicates) is omitted when no allocation of the pod has VFs.
+func (p *c19PodDef) opLine(busIdx map[string]int) string {
 	var sb strings.Builder
 	fmt.Fprintf(&sb, "dev pod %d %d %d", p.id, p.node, len(p.items))
+	anyVF := false
 	for _, it := range p.items {
 		fmt.Fprintf(&sb, " %d %d %d", it.ty, it.minor, len(it.dims))
 		for i, d := range it.dims {
 			fmt.Fprintf(&sb, " %d %d", d, it.amts[i])
 		}
+		if len(c19ExtVFs(it.ext)) > 0 {
+			anyVF = true
+		}
+	}
+	if anyVF {
+		for _, it := range p.items {
+			vfs := c19ExtVFs(it.ext)
+			fmt.Fprintf(&sb, " %d", len(vfs))
+			for _, vf := range vfs {
+				fmt.Fprintf(&sb, " %d", busIdx[vf.BusID])
+			}
+		}
 	}
 	return sb.String()
+}
+
+func c19VFKey(node, ty, minor int, bus string) string {
+	return fmt.Sprintf("%d/%d/%d/%s", node, ty, minor, bus)
+}
+
+// vfHeld: the VFs the pod's allocation stands for. raw = every (node, type, minor, bus id) listed in an
+// Extension.VirtualFunctions; norm = the same after "one set per minor, the last allocation of the list
+// that carries VFs wins" (how the persisted list is read back into a per-minor map); dupMinor reports
+// that the two differ in shape: two allocations of one type's list with the same minor both carry VFs.
+func (p *c19PodDef) vfHeld() (raw, norm map[string]bool, dupMinor bool) {
+	raw, norm = map[string]bool{}, map[string]bool{}
+	last := map[[2]int]int{}
+	for i, it := range p.items {
+		if len(c19ExtVFs(it.ext)) == 0 {
+			continue
+		}
+		if _, ok := last[[2]int{it.ty, it.minor}]; ok {
+			dupMinor = true
+		}
+		last[[2]int{it.ty, it.minor}] = i
+	}
+	for i, it := range p.items {
+		for _, vf := range c19ExtVFs(it.ext) {
+			k := c19VFKey(p.node, it.ty, it.minor, vf.BusID)
+			raw[k] = true
+			if last[[2]int{it.ty, it.minor}] == i {
+				norm[k] = true
+			}
+		}
+	}
+	return
+}
+
+func c19VFConflict(a, b *c19PodDef) string {
+	_, na, _ := a.vfHeld()
+	_, nb, _ := b.vfHeld()
+	for k := range na {
+		if nb[k] {
+			return k
+		}
+	}
+	return ""
 }
 
 func c19GenPod(h *vHarness, r *vRand, id, node int, inv *c19Inventory, remaining map[[4]int]int64) *c19PodDef {
@@ -182,7 +286,7 @@ func c19GenPod(h *vHarness, r *vRand, id, node int, inv *c19Inventory, remaining
 	}
 	sort.Ints(chosen)
 	oversub := r.Chance(1, 10)
-	dupMinor, notInInv, zeroAmt, vf := false, false, false, false
+	dupMinor, notInInv, zeroAmt, vf, vfDupBus := false, false, false, false, false
 	for _, ty := range chosen {
 		cnt := inv.counts[node][ty]
 		k := int(r.Pick([]int64{1, 1, 1, 2, 2, 3}))
@@ -200,6 +304,7 @@ func c19GenPod(h *vHarness, r *vRand, id, node int, inv *c19Inventory, remaining
 		if r.Chance(1, 25) { // a minor the inventory does not have
 			minors[r.Intn(len(minors))] = cnt + r.Intn(2)
 		}
+		seenVFMinor := map[[2]int]bool{}
 		seen := map[int]bool{}
 		for _, m := range minors {
 			if seen[m] {
@@ -255,14 +360,24 @@ func c19GenPod(h *vHarness, r *vRand, id, node int, inv *c19Inventory, remaining
 			}
 			itemIdx := len(p.items)
 			if ty == 1 {
-				if r.Chance(1, 2) {
+				_ = itemIdx
+				if r.Chance(1, 2) || (seenVFMinor[[2]int{ty, m}] && r.Chance(2, 3)) {
+					// bus ids from a pool of 4 per (node, minor): VFs are shared over time between pods
 					it.ext = &apiext.DeviceAllocationExtension{}
 					nvf := r.Range(1, 2)
-					for j := 0; j < nvf; j++ {
+					pick := r.Perm(4)[:nvf]
+					if r.Chance(1, 12) { // the same bus id listed twice in one VirtualFunctions list
+						pick = append(pick, pick[0])
+						vfDupBus = true
+					}
+					for _, j := range pick {
 						it.ext.VirtualFunctions = append(it.ext.VirtualFunctions, apiext.VirtualFunction{
-							Minor: r.Intn(4), BusID: fmt.Sprintf("0000:%02x:%02x.%d", id, itemIdx, j)})
+							Minor: r.Intn(4), BusID: fmt.Sprintf("0000:%02x:%02x.%d", node, m, j)})
 					}
 					vf = true
+				}
+				if len(c19ExtVFs(it.ext)) > 0 {
+					seenVFMinor[[2]int{ty, m}] = true
 				}
 				if r.Chance(1, 3) {
 					it.id = fmt.Sprintf("id-%d", m)
@@ -288,6 +403,12 @@ func c19GenPod(h *vHarness, r *vRand, id, node int, inv *c19Inventory, remaining
 	}
 	if vf {
 		h.Tag("vf")
+	}
+	if vfDupBus {
+		h.Tag("vf-dup-bus")
+	}
+	if _, _, dm := p.vfHeld(); dm {
+		h.Tag("vf-dup-minor")
 	}
 	return p
 }
@@ -412,6 +533,18 @@ type c19Snap struct {
 	used     map[[4]int]int64 // node, ty, minor, dim
 	free     map[[4]int]int64
 	vf       map[[3]int]string // node, ty, minor -> sorted bus ids (non-empty only)
+	vfSet    map[string]bool   // c19VFKey of every recorded VF
+}
+
+// c19NonVF drops the `vf` lines of an observation block.
+func c19NonVF(lines []string) []string {
+	out := make([]string, 0, len(lines))
+	for _, l := range lines {
+		if !strings.HasPrefix(l, "vf ") {
+			out = append(out, l)
+		}
+	}
+	return out
 }
 
 func c19SortTuples(xs [][]int64) {
@@ -446,8 +579,8 @@ func c19Vals(ty int, rl corev1.ResourceList) (vals [3]int64, unknown bool) {
 // c19Observe reads the real maps of every node's nodeDevice; emit=true writes the block as
 // observation lines.
 func c19Observe(h *vHarness, c *nodeDeviceCache, inv *c19Inventory, emit bool) *c19Snap {
-	s := &c19Snap{used: map[[4]int]int64{}, free: map[[4]int]int64{}, vf: map[[3]int]string{}}
-	var us, fs, ps, as [][]int64
+	s := &c19Snap{used: map[[4]int]int64{}, free: map[[4]int]int64{}, vf: map[[3]int]string{}, vfSet: map[string]bool{}}
+	var us, fs, ps, as, vs [][]int64
 	unknown := false
 	if c == nil {
 		s.panicked = true
@@ -518,12 +651,26 @@ func c19Observe(h *vHarness, c *nodeDeviceCache, inv *c19Inventory, emit bool) *
 						if len(set) == 0 {
 							continue
 						}
+						if ty < 0 {
+							unknown = true
+						}
 						ids := make([]string, 0, len(set))
 						for id := range set {
 							ids = append(ids, id)
 						}
 						sort.Strings(ids)
 						s.vf[[3]int{n, ty, minor}] = strings.Join(ids, ",")
+						line := []int64{int64(n), int64(ty), int64(minor)}
+						for _, id := range ids {
+							s.vfSet[c19VFKey(n, ty, minor, id)] = true
+							bi, ok := inv.busIdx[id]
+							if !ok {
+								unknown = true
+								bi = -1
+							}
+							line = append(line, int64(bi))
+						}
+						vs = append(vs, line)
 					}
 				}
 			}()
@@ -538,6 +685,14 @@ func c19Observe(h *vHarness, c *nodeDeviceCache, inv *c19Inventory, emit bool) *
 		c19SortTuples(fs)
 		c19SortTuples(ps)
 		c19SortTuples(as)
+		sort.Slice(vs, func(i, j int) bool { // by (node, ty, minor): unique
+			for k := 0; k < 3; k++ {
+				if vs[i][k] != vs[j][k] {
+					return vs[i][k] < vs[j][k]
+				}
+			}
+			return false
+		})
 		for _, x := range us {
 			s.lines = append(s.lines, "u "+vInts(x))
 		}
@@ -550,10 +705,13 @@ func c19Observe(h *vHarness, c *nodeDeviceCache, inv *c19Inventory, emit bool) *
 		for _, x := range as {
 			s.lines = append(s.lines, "a "+vInts(x))
 		}
+		for _, x := range vs { // bus ids ascending: index order = string order
+			s.lines = append(s.lines, "vf "+vInts(x))
+		}
 		s.lines = append(s.lines, "end")
 		if unknown {
 			h.Tag("unknown-dim")
-			h.Fail("C19:dev-unknown-resource", "a resource name / device type outside the case's vocabulary appeared in the cache")
+			h.Fail("C19:dev-unknown-resource", "a resource name / device type / VF bus id outside the case's vocabulary appeared in the cache")
 		}
 	}
 	if emit {
@@ -598,6 +756,7 @@ func c19VFDiff(a, b map[[3]int]string) string {
 
 type c19Event struct {
 	upd bool
+	del bool // a stale delete event about a pod that does not survive
 	pod int
 }
 
@@ -617,7 +776,7 @@ func c19Schedule(h *vHarness, r *vRand, survivors []int) []c19Event {
 	}
 	first := func(pod int) int {
 		for i, e := range evs {
-			if !e.upd && e.pod == pod {
+			if !e.upd && !e.del && e.pod == pod {
 				return i
 			}
 		}
@@ -647,10 +806,32 @@ func c19Schedule(h *vHarness, r *vRand, survivors []int) []c19Event {
 	return evs
 }
 
-func c19Replay(h *vHarness, r *vRand, inv *c19Inventory, apiServer map[int]*corev1.Pod, survivors []int) *c19Snap {
+func c19Replay(h *vHarness, r *vRand, inv *c19Inventory, apiServer map[int]*corev1.Pod, survivors []int, gone map[int]*corev1.Pod) *c19Snap {
 	h.Op("dev fresh")
 	fresh := c19NewCache(h, inv)
-	for _, e := range c19Schedule(h, r, survivors) {
+	evs := c19Schedule(h, r, survivors)
+	if len(gone) > 0 && r.Chance(1, 4) {
+		// a delete event about a pod that was deleted before the cut reaches the new scheduler
+		ids := make([]int, 0, len(gone))
+		for id := range gone {
+			ids = append(ids, id)
+		}
+		sort.Ints(ids)
+		at := r.Intn(len(evs) + 1)
+		evs = append(evs, c19Event{})
+		copy(evs[at+1:], evs[at:])
+		evs[at] = c19Event{del: true, pod: ids[r.Intn(len(ids))]}
+		h.Tag("replay-stale-del")
+	}
+	for _, e := range evs {
+		if e.del {
+			obj, _ := c19DeleteObj(h, r, gone[e.pod].DeepCopy())
+			h.Op("dev rdel %d", e.pod)
+			if fresh != nil {
+				h.Guard(func() { c19Handler(fresh).OnDelete(obj) })
+			}
+			continue
+		}
 		obj := apiServer[e.pod].DeepCopy()
 		if e.upd {
 			h.Op("dev rupd %d", e.pod)
@@ -710,7 +891,25 @@ func TestVerifC19Dev(t *testing.T) {
 		pods := make([]*c19PodDef, nPods)
 		for id := 0; id < nPods; id++ {
 			pods[id] = c19GenPod(h, r, id, r.Intn(inv.nNodes), inv, remaining)
-			h.Op("%s", pods[id].opLine())
+		}
+		var buses []string
+		inv.busIdx = map[string]int{}
+		for _, p := range pods {
+			for _, it := range p.items {
+				for _, vf := range c19ExtVFs(it.ext) {
+					if _, ok := inv.busIdx[vf.BusID]; !ok {
+						inv.busIdx[vf.BusID] = 0
+						buses = append(buses, vf.BusID)
+					}
+				}
+			}
+		}
+		sort.Strings(buses)
+		for i, b := range buses {
+			inv.busIdx[b] = i
+		}
+		for id := 0; id < nPods; id++ {
+			h.Op("%s", pods[id].opLine(inv.busIdx))
 		}
 		h.Tag(fmt.Sprintf("pods:%d", nPods))
 
@@ -742,8 +941,23 @@ func TestVerifC19Dev(t *testing.T) {
 			h.Tag("hist-len:9-12")
 		}
 		var liveSnap *c19Snap
+		gone := map[int]*corev1.Pod{}     // pods deleted before the cut -> their last object
+		released := map[string]bool{}     // VFs held by a pod that was deleted
+		vfDupMinorLive := false           // a pod with two VF-carrying allocations on one minor was added
 		for step := 0; step < histLen; step++ {
 			present, absent := inSet(true), inSet(false)
+			if live != nil && len(present) > 0 && r.Chance(1, 10) {
+				// degenerate tombstone about a pod the cache holds: must be ignored, ledger unchanged
+				h.Tag("del:tombstone-badobj")
+				victim := apiServer[present[r.Intn(len(present))]].DeepCopy()
+				bad := c19BadTombstone(r, victim)
+				before := c19Observe(h, live, inv, false)
+				if h.Guard(func() { c19Handler(live).OnDelete(bad) }) {
+					h.Fail("C19:dev-tombstone-badobj", "a tombstone whose Obj is not a *Pod made the delete handler panic")
+				} else if d := c19FirstDiff(before.lines, c19Observe(h, live, inv, false).lines); d != "" {
+					h.Fail("C19:dev-tombstone-badobj", "a tombstone whose Obj is not a *Pod changed the ledger: %s", d)
+				}
+			}
 			kind := 0 // add
 			switch x := r.Intn(20); {
 			case x < 11:
@@ -763,11 +977,39 @@ func TestVerifC19Dev(t *testing.T) {
 			switch kind {
 			case 0:
 				var target int
-				if len(absent) == 0 || (len(present) > 0 && r.Chance(1, 6)) {
+				// allocateVF never hands out a VF that is recorded as allocated: a pod whose VFs overlap
+				// those of a present pod cannot have been scheduled now
+				var absentOK []int
+				for _, a := range absent {
+					ok := true
+					for _, q := range present {
+						if c19VFConflict(pods[a], pods[q]) != "" {
+							ok = false
+						}
+					}
+					if ok {
+						absentOK = append(absentOK, a)
+					}
+				}
+				if len(absentOK) < len(absent) {
+					h.Tag("vf-conflict-avoided")
+				}
+				if len(absentOK) == 0 || (len(present) > 0 && r.Chance(1, 6)) {
 					target = present[r.Intn(len(present))]
 					h.Tag("dup-add")
 				} else {
-					target = absent[r.Intn(len(absent))]
+					target = absentOK[r.Intn(len(absentOK))]
+					_, norm, dm := pods[target].vfHeld()
+					for k := range norm {
+						if released[k] {
+							h.Tag("vf-reused-after-delete")
+							break
+						}
+					}
+					if dm {
+						vfDupMinorLive = true
+					}
+					delete(gone, target)
 				}
 				via := r.Intn(3)
 				h.Tag(fmt.Sprintf("add-via:%d", via))
@@ -796,7 +1038,18 @@ func TestVerifC19Dev(t *testing.T) {
 					target = present[r.Intn(len(present))]
 					obj = apiServer[target].DeepCopy()
 				}
+				// via 0 = Unreserve-like, 2 = update to a terminated pod, 1 / 3 = pod delete event through the
+				// registered handler (1 = the pod, 3 = a DeletedFinalStateUnknown by value)
 				via := r.Intn(4)
+				var delObj interface{}
+				if via == 1 || via == 3 {
+					var tomb bool
+					delObj, tomb = c19DeleteObj(h, r, obj)
+					via = 1
+					if tomb {
+						via = 3
+					}
+				}
 				h.Tag(fmt.Sprintf("del-via:%d", via))
 				h.Op("dev del %d %d", target, via)
 				p := pods[target]
@@ -804,16 +1057,21 @@ func TestVerifC19Dev(t *testing.T) {
 					switch via {
 					case 0:
 						cacheUsed(p, false)
-					case 1:
-						live.onPodDelete(obj)
 					case 2:
 						done := obj.DeepCopy()
 						done.Status.Phase = corev1.PodSucceeded
 						live.onPodUpdate(obj, done)
 					default:
-						live.onPodDelete(cache.DeletedFinalStateUnknown{Key: "default/" + c19PodName(target), Obj: obj})
+						c19Handler(live).OnDelete(delObj)
 					}
 				})
+				if _, was := apiServer[target]; was {
+					gone[target] = obj.DeepCopy()
+					_, norm, _ := p.vfHeld()
+					for k := range norm {
+						released[k] = true
+					}
+				}
 				delete(apiServer, target)
 			default:
 				target := present[r.Intn(len(present))]
@@ -833,6 +1091,20 @@ func TestVerifC19Dev(t *testing.T) {
 			} else {
 				liveSnap = c19Observe(h, live, inv, true)
 			}
+			// hypothesis of the VF theorems (Lean: VWF / histOK): at every point of the history the pods the
+			// API server holds have pairwise disjoint VFs.  (The other hypothesis, "every event about a pod
+			// carries the same allocation", holds by construction: a pod's allocation is generated once.)
+			now := inSet(true)
+			for i := 0; i < len(now); i++ {
+				for j := i + 1; j < len(now); j++ {
+					if k := c19VFConflict(pods[now[i]], pods[now[j]]); k != "" {
+						h.Fail("C19:dev-vf-hypothesis", "step %d: pods %d and %d both hold VF %s; the generator must not produce this", step, now[i], now[j], k)
+					}
+				}
+			}
+		}
+		if vfDupMinorLive {
+			h.Tag("vf-dup-minor-live")
 		}
 
 		// the cut: survivors = what the API server holds
@@ -873,11 +1145,11 @@ func TestVerifC19Dev(t *testing.T) {
 		}
 
 		// 4. replay into a fresh cache, twice
-		fresh1 := c19Replay(h, r, inv, apiServer, survivors)
-		fresh2 := c19Replay(h, r, inv, apiServer, survivors)
+		fresh1 := c19Replay(h, r, inv, apiServer, survivors, gone)
+		fresh2 := c19Replay(h, r, inv, apiServer, survivors, gone)
 
-		// oracle (ii): the rebuilt state equals the live state at the cut
-		if d := c19FirstDiff(liveSnap.lines, fresh1.lines); d != "" {
+		// oracle (ii): the rebuilt state equals the live state at the cut (the VF part has its own clause)
+		if d := c19FirstDiff(c19NonVF(liveSnap.lines), c19NonVF(fresh1.lines)); d != "" {
 			h.Fail("C19:dev-rebuilt-differs", "live vs rebuilt: %s", d)
 		}
 		if !liveSnap.panicked && !fresh1.panicked {
@@ -925,6 +1197,33 @@ func TestVerifC19Dev(t *testing.T) {
 				}
 			}
 		}
+		// oracle (iii-vf): every VF a survivor holds is recorded as allocated by the rebuilt cache (allocateVF
+		// skips recorded bus ids, so it is not offered again).  For a pod with two VF-carrying allocations on
+		// one minor (tag vf-dup-minor; not produced by the allocator) only the last allocation's VFs are
+		// demanded: theorem vf_taken_not_free assumes distinct VF-carrying minors, see
+		// vf_taken_dup_minor_counterexample.
+		if !fresh1.panicked {
+		vfLoop:
+			for _, id := range survivors {
+				raw, norm, dm := pods[id].vfHeld()
+				want := raw
+				if dm {
+					want = norm
+					h.Tag("vf-dup-minor-survivor")
+				}
+				keys := make([]string, 0, len(want))
+				for k := range want {
+					keys = append(keys, k)
+				}
+				sort.Strings(keys)
+				for _, k := range keys {
+					if !fresh1.vfSet[k] {
+						h.Fail("C19:dev-vf-taken-considered-free", "pod %d holds VF %s (node/type/minor/bus) but the rebuilt cache does not record it", id, k)
+						break vfLoop
+					}
+				}
+			}
+		}
 		// oracle (iv): the rebuilt state does not depend on the replay order / duplicates
 		if d := c19FirstDiff(fresh1.lines, fresh2.lines); d != "" {
 			h.Fail("C19:dev-order-dependent", "replay 1 vs replay 2: %s", d)
@@ -932,9 +1231,11 @@ func TestVerifC19Dev(t *testing.T) {
 		h.End()
 	}
 	h.Close("one case = 1-2 nodes (1-4 GPU, 0-2 RDMA, 0-1 FPGA each), 2-6 pods with allocator-like device allocations " +
-		"(1-3 types, 1-3 minors, partial/full/zero shares, rare duplicate or unknown minors, rare oversubscription, ~1/8 pods without allocation, RDMA VFs), " +
-		"a live history of 3-12 add/del/upd ops through updateCacheUsed and the pod informer handlers (duplicate adds, deletes of absent pods), " +
-		"then two shuffled replays of the surviving annotated pods (duplicate adds, same-allocation updates, update-before-add) into fresh caches; " +
-		"oracle: annotation codec round trip, rebuilt == live, nothing held is free, replay order irrelevant. " +
+		"(1-3 types, 1-3 minors, partial/full/zero shares, rare duplicate or unknown minors, rare oversubscription, ~1/8 pods without allocation, " +
+		"RDMA VFs drawn from a pool of 4 bus ids per (node, minor) so that VFs are reused after a delete but never held by two present pods, rare duplicate bus id), " +
+		"a live history of 3-12 add/del/upd ops through updateCacheUsed and the pod informer handlers (duplicate adds, deletes of absent pods, " +
+		"delete events through ResourceEventHandlerFuncs.OnDelete ~40% as DeletedFinalStateUnknown by value, rare degenerate tombstones that must be ignored), " +
+		"then two shuffled replays of the surviving annotated pods (duplicate adds, same-allocation updates, update-before-add, rare stale delete of a gone pod) into fresh caches; " +
+		"oracle: annotation codec round trip, rebuilt == live (ledger and VFs), nothing held is free / no held VF unrecorded, replay order irrelevant, VF-theorem hypotheses hold. " +
 		"non-trivial = at least two survivors hold an item on the same (node,type,minor) or the survivors together cover at least two device types")
 }
